@@ -348,5 +348,9 @@ class ExactGP(GP):
                 ) = self.prediction_strategy.exact_prediction(full_mean, full_covar)
 
             # Reshape predictive mean to match the appropriate event shape
+            # (the targets may carry batch dimensions that the inputs and the prior do not have)
+            if predictive_mean.dim() - 1 > len(batch_shape):
+                batch_shape = torch.broadcast_shapes(batch_shape, predictive_mean.shape[:-1])
+                predictive_covar = predictive_covar.expand(*batch_shape, *predictive_covar.shape[-2:])
             predictive_mean = predictive_mean.view(*batch_shape, *test_shape).contiguous()
             return full_output.__class__(predictive_mean, predictive_covar)
